@@ -513,11 +513,38 @@ class _Ctx:
         ast.fix_missing_locations(out)
         return [out]
 
+    @staticmethod
+    def _desugar_shortcircuit(s: ast.stmt) -> Optional[List[ast.stmt]]:
+        """`if a and (x := f()) ...:` - a later operand of and/or binds a name: written out as the nested ifs that the
+        short-circuit evaluation is, so that the binding (and its call) happens only on the paths that reach it."""
+        if not (isinstance(s, ast.If) and isinstance(s.test, ast.BoolOp) and len(s.test.values) >= 2):
+            return None
+        if not any(isinstance(y, ast.NamedExpr) for v in s.test.values[1:] for y in ast.walk(v)):
+            return None
+        import copy
+        first, rest = s.test.values[0], s.test.values[1:]
+        rest_test = rest[0] if len(rest) == 1 else ast.BoolOp(op=s.test.op, values=rest)
+        if isinstance(s.test.op, ast.And):
+            inner = ast.If(test=rest_test, body=s.body, orelse=copy.deepcopy(s.orelse))
+            out = ast.If(test=first, body=[inner], orelse=s.orelse)
+        else:
+            inner = ast.If(test=rest_test, body=copy.deepcopy(s.body), orelse=s.orelse)
+            out = ast.If(test=first, body=s.body, orelse=[inner])
+        for n in (inner, out):
+            ast.copy_location(n, s)
+        ast.fix_missing_locations(out)
+        return [out]
+
+    def ex_NamedExpr(self, e, st):
+        v = self.ev(e.value, st)
+        self.assign(e.target, v, st, e)
+        return v
+
     def block(self, stmts: List[ast.stmt], states: List[State]) -> List[State]:
         for s in stmts:
             ds = getattr(s, '_desugared', None)
             if ds is None:
-                ds = self._desugar_setdefault(s) or self._desugar_ifexp(s) or False
+                ds = self._desugar_setdefault(s) or self._desugar_ifexp(s) or self._desugar_shortcircuit(s) or False
                 try:
                     s._desugared = ds
                 except Exception:
@@ -773,7 +800,11 @@ class _Ctx:
     def st_AugAssign(self, s, st):
         cur = self.ev(_load(s.target), st)
         v = self.ev(s.value, st, stmt=s)
-        if isinstance(s.op, ast.Add) and isinstance(cur, Fresh) and cur.kind in ('list', 'call:list', 'listcomp', 'copy') and \
+        is_list = isinstance(cur, Fresh) and cur.kind in ('list', 'call:list', 'listcomp', 'copy')
+        if not is_list and isinstance(s.target, ast.Attribute):
+            tt = self.ti.expr_type(s.target, self.fn, self.types)
+            is_list = bool(tt and tt[0] == 'list')
+        if isinstance(s.op, ast.Add) and is_list and \
                 isinstance(v, Fresh) and v.kind == 'list' and v.detail is None and v.items and \
                 all(not (isinstance(x, App) and x.fn == '*') for x in v.items):
             # `lst += [a, b]` on a list allocated in this activation is in-place: the same as appending each element
@@ -888,6 +919,7 @@ class _Ctx:
                 and len(target.elts) == 2 and isinstance(target.elts[0], ast.Name):
             i = sym(target.elts[0].id)
             st.env[target.elts[0].id] = i
+            st.known[AIs(i, Const(None))] = False      # a position is an int
             seq = it.args[0]
             self.assign(target.elts[1], Sub(seq, i), st, node, loopvar=True)
             info.update(kind='enumerate', seq=seq, index=i, start=it.args[1] if len(it.args) > 1 else Num(Fraction(0)))
@@ -895,6 +927,7 @@ class _Ctx:
         if isinstance(it, App) and it.fn == 'range' and isinstance(target, ast.Name):
             i = sym(target.id)
             st.env[target.id] = i
+            st.known[AIs(i, Const(None))] = False      # a range element is an int
             a = it.args
             lo, hi, step = Num(Fraction(0)), None, Num(Fraction(1))
             if len(a) == 1:
@@ -1450,6 +1483,8 @@ class _Ctx:
 
     def is_sentinel(self, t: Term) -> bool:
         """t names a private marker object: a module-level `NAME = object()` (never stored in any container)."""
+        if isinstance(t, Fresh) and t.kind == 'call:object':
+            return True
         if isinstance(t, Sym) and '.' in t.name:
             mn, _, nm = t.name.rpartition('.')
             m = self.prog.modules.get(mn)
@@ -1532,6 +1567,12 @@ class _Ctx:
             return st.heap[path]
         # property getter of a package class: inline when it is a single return expression
         bt = self.ti.expr_type(e.value, self.fn, self.types)
+        if not bt and self.inline_stack:
+            # an untyped parameter of a helper walked inline: the type of the argument it is bound to in the caller's frame
+            try:
+                bt = self.term_type(base)
+            except Exception:
+                bt = None
         ci = None
         if bt and bt[0] == 'inst':
             ci = bt[1]
@@ -1554,6 +1595,8 @@ class _Ctx:
 
     def ex_Subscript(self, e, st):
         base = self.ev(e.value, st)
+        if isinstance(base, Sym) and not base.name.startswith('<'):
+            st.known.setdefault(AIs(base, Const(None)), False)      # subscripting succeeded: the object is not None
         if isinstance(e.slice, ast.Slice):
             parts = tuple(self.ev(x, st) if x is not None else Const(None) for x in (e.slice.lower, e.slice.upper, e.slice.step))
             if all(p == Const(None) for p in parts):
@@ -1877,6 +1920,26 @@ class _Ctx:
 
     def ex_Call(self, e: ast.Call, st: State) -> Term:
         f = e.func
+        if isinstance(f, ast.Name) and isinstance(st.env.get(f.id), Sym) and not getattr(e, '_redispatched', False):
+            # a local that holds a builtin or a library function (picked from a table): the call it stands for
+            nm = st.env[f.id].name
+            f2 = None
+            if nm.startswith('builtins.') and nm[9:] not in st.env and '.' not in nm[9:]:
+                f2 = ast.Name(id=nm[9:], ctx=ast.Load())
+            elif nm in ('min', 'max', 'sum', 'len', 'abs', 'sorted', 'list', 'tuple', 'dict', 'set', 'any', 'all') and nm != f.id and \
+                    nm not in st.env and self.prog.resolve_name(nm, self.fn.module) is None:
+                f2 = ast.Name(id=nm, ctx=ast.Load())
+            elif '.' in nm and not nm.startswith('<'):
+                mn, _, fnn = nm.rpartition('.')
+                alias = next((a for a, t in self.fn.module.imports.items() if t == mn and a not in st.env), None)
+                if alias is not None:
+                    f2 = ast.Attribute(value=ast.Name(id=alias, ctx=ast.Load()), attr=fnn, ctx=ast.Load())
+            if f2 is not None:
+                e2 = ast.Call(func=f2, args=e.args, keywords=e.keywords)
+                ast.copy_location(e2, e)
+                ast.fix_missing_locations(e2)
+                e2._redispatched = True
+                return self.ex_Call(e2, st)
         args = [self.ev(a, st) for a in e.args]
         kw = {k.arg if k.arg is not None else '**': self.ev(k.value, st) for k in e.keywords}
         tgt: CallTarget = self.ti.resolve_call(e, self.fn, self.types)
@@ -1904,6 +1967,12 @@ class _Ctx:
                     funcs.sort(key=lambda m: 0 if m.cls == roots[0] else 1)
                     tgt = CallTarget('pkg', funcs, via='byname', name=nm)
                     bound_recv = st.env[f.id].base
+                elif not cands:
+                    # a bound method of a library object kept in a local (`write = file.write`): the same call as base.write(...)
+                    tgt = CallTarget('unknown', via='', name=nm)
+                    bound_recv = st.env[f.id].base
+            if bound_recv is None and tgt.kind == 'ext' and tgt.ext and tgt.ext.endswith('.' + st.env[f.id].name):
+                bound_recv = st.env[f.id].base      # typed library object: io.TextIOWrapper.write through a local
         if tgt.resolved:
             self.w.stats['calls_resolved'] += 1
         else:
@@ -1929,6 +1998,11 @@ class _Ctx:
                 return BoolT(AIsInst(args[0], args[1]))
             if b == 'hasattr' and len(args) == 2:
                 return BoolT(ATruthy(App('hasattr', tuple(args))))
+            if b == 'vars' and len(args) == 1 and not kw:
+                pth = Attr(args[0], '__dict__')       # vars(x) is x.__dict__
+                return st.heap.get(pth, pth)
+            if b == 'object' and not args and not kw:
+                return Fresh('call:object', (), e.lineno)
             if b == 'getattr' and len(args) >= 2 and isinstance(args[1], Const) and isinstance(args[1].value, str) and \
                     not isinstance(args[0], App):
                 pth = Attr(args[0], args[1].value)
@@ -2086,6 +2160,7 @@ class _Ctx:
                                 pass
             return r
         # ---- external / unknown
+        fn_term = None
         if recv is not None:
             r = App('.' + name, (recv,) + tuple(args), kwt)
         else:
@@ -2093,7 +2168,7 @@ class _Ctx:
             r = App('call', (fn_term,) + tuple(args), kwt)
         self.emit(st, 'call', e, targets=[], target_kind=tgt.kind, callee_name=tgt.ext or ('.' + name if recv is not None else name),
                   recv=recv, args=tuple(args), kw=kwt, via=tgt.via, expr=e, result=r,
-                  func_term=(self.ev(f, st) if isinstance(f, ast.Name) else None))
+                  func_term=(fn_term if isinstance(f, (ast.Name, ast.Call, ast.Subscript)) else None))
         if tgt.kind == 'unknown':
             st.events[-1].data['_invalidate'] = ('all',)     # open-world callback (G6): may call any public method
         return r
